@@ -46,7 +46,7 @@ def gen_cases(tier, seed):
                       "smat": [np.eye(3, dtype=int).tolist(), np.diag([2, 1, 1]).tolist(), [[1, 1, 0], [-1, 1, 0], [0, 0, 1]]][rng.integers(3)],
                       "pmat": ["P", "centring"][rng.integers(2)], "calculator": CALCS[i % len(CALCS)], "dataset": ["type1", "type1", "type2", "none"][rng.integers(4)],
                       "fc": ["full", "compact", "none"][rng.integers(3)], "nac": bool(rng.integers(2)) and not mag, "xz": bool(rng.integers(3) == 0),
-                      "custom_masses": bool(rng.integers(4) == 0), "decoys": bool(rng.integers(2)), "settings_bits": int(rng.integers(32)), "settings_form": int(rng.integers(5)), "seed": int(rng.integers(10 ** 6))})
+                      "custom_masses": bool(rng.integers(4) == 0), "mass_setter": bool(rng.integers(4) == 0), "decoys": bool(rng.integers(2)), "settings_bits": int(rng.integers(32)), "settings_form": int(rng.integers(5)), "seed": int(rng.integers(10 ** 6))})
     for i in range(16 if tier == "quick" else 100):
         cases.append({"kind": "fileio", "crystal": {"name": names[i % len(names)]}, "smat": [np.diag([2, 1, 1]).tolist(), [[1, 1, 0], [-1, 1, 0], [0, 0, 1]]][rng.integers(2)],
                       "pmat": ["P", "centring"][rng.integers(2)], "scale": float(10 ** rng.uniform(-8, 7)), "seed": int(rng.integers(10 ** 6))})
@@ -140,6 +140,17 @@ def run_case(c):
             if masses is not None:
                 case2["masses"] = masses
             ph, cd = setup.build_phonopy(case2, factor=units["factor"], calculator=calc)
+            if c.get("mass_setter"):
+                # masses assigned through the Phonopy.masses setter, one value per primitive atom, atoms of the same species with different values
+                # (isotopes on different sublattices): unit cell, supercell and primitive cell must all carry them into the file and back
+                pm_ = np.array(ph.primitive.masses) * (1.0 + 0.07 * np.arange(1, len(ph.primitive) + 1) / len(ph.primitive))
+                ph.masses = [float(np.round(v, 6)) for v in pm_]
+                obs["mass_setter_cases"] = 1
+                # consistency of the three cells before saving (harness arithmetic: every atom carries the mass of its primitive image)
+                want_s = np.array(ph.primitive.masses)[[ph.primitive.p2p_map[x] for x in ph.primitive.s2p_map]]
+                if np.abs(np.array(ph.supercell.masses) - want_s).max() > 1e-12 or np.abs(np.array(ph.unitcell.masses) - np.array(ph.supercell.masses)[ph.supercell.u2s_map]).max() > 1e-12:
+                    viol.append(dict(kind="masses_setter", msg="Phonopy.masses setter left unit cell / supercell / primitive cell with inconsistent masses: unit %s, primitive %s" % (
+                        np.round(ph.unitcell.masses, 4).tolist()[:6], np.round(ph.primitive.masses, 4).tolist()[:6]), calculator=calc))
             sc = ph.supercell
             fcm = models.pair_fc(sc.cell, sc.scaled_positions, sc.symbols, cutoff=4.6)
             if np.abs(fcm).max() < 1e-8:
